@@ -216,3 +216,14 @@ Example demo_prompt :
         [(20250, fun d => exec d 20 20250 [B "rpush"; B "k"; B "x"] RNil)] empty_db
   = (Some (RArr [RBulk (B "k"); RBulk (B "x")]), 20300, [], empty_db, [RInt 1]).
 Proof. vm_compute. reflexivity. Qed.
+
+(* ---------------------------------------------------------------- all command families (Mem/AllInv.v)
+   "No empty list is stored" is preserved by every command of EVERY family (RENAME moving a
+   list, DEL, SET overwriting it, expiry ...), hence by any interleaving of them. *)
+Require Mem.AllInv Mem.ZSetsCompose.
+
+Theorem C09_inv_all_commands : forall (prog : list (Z * Z * list bytes * reply)) (d : db),
+  db_wf d -> lists_ok d ->
+  db_wf (ZSetsCompose.run_cmds prog d) /\ lists_ok (ZSetsCompose.run_cmds prog d).
+Proof. exact AllInv.lists_ok_all_commands. Qed.
+Print Assumptions C09_inv_all_commands.
